@@ -98,6 +98,10 @@ def case(task):
                 res['order'] = gc.order_dependence(
                     desc, seed, p, N, list(fwd), fwd, with_T=True,
                     vacuum=vacuum)
+                if st.Lambda != 0:
+                    res['lamattr'] = gc.lambda_attribute_dependence(
+                        desc, seed, p, N, list(fwd), fwd, with_T=True,
+                        vacuum=vacuum)
     except Exception:      # noqa: BLE001
         import traceback
         res['raised'] = traceback.format_exc()[-600:]
@@ -140,6 +144,14 @@ def judge(run, task, res):
         run.violation(f"C06:raised:{desc[0]}", f"{tag}: {res['raised']}",
                       {'task': res['task']})
         return
+    for k, d in res.get('lamattr', {}).items():
+        run.count('lambda_attribute_comparisons')
+        if not d <= 1e-12:
+            run.violation(f"C06:Lambda-as-attribute:{k}",
+                          f"{tag}: {k} differs by {d:.2e} (relative) when "
+                          "the cosmological constant is assigned to "
+                          "rel.Lambda after construction instead of passed "
+                          "as a keyword", {'task': res['task'], 'key': k})
     for k, d in res.get('order', {}).items():
         run.count('order_comparisons')
         if not d <= 1e-9:
